@@ -4,7 +4,7 @@ sys.path.insert(0, os.path.join(os.path.dirname(os.path.abspath(__file__)), '..'
 import vcommon as V
 
 PROPS = ['props/C16.v']
-GEN_OBLIGATIONS = ['globals_written_empty', 'globals_no_escape']
+GEN_OBLIGATIONS = ['globals_written_empty', 'globals_no_escape', 'globals_no_process_state_calls']
 ASSUMPTIONS = [
     "abstraction: a library call is a thread of atomic Read/Write/Local actions over a shared store indexed by the package-level "
     "variables of in_toto; all other state (arguments, locals, the files below the call's own directory, its own metadata objects) "
@@ -17,9 +17,13 @@ ASSUMPTIONS = [
     "NOT covered: data races or shared state inside the Go standard library and third-party packages (securesystemslib, go-pathspec, "
     "protobuf, os/exec ...); again only observed by the race run",
     "NOT covered: state shared through arguments or through the environment - the property is restricted to independent data. "
-    "In particular the process working directory is shared: RunInspections (hence InTotoVerify with inspections) writes "
-    "<name>.link files into it and record paths given relative to it depend on it; the harness passes absolute paths and layouts "
-    "without inspections",
+    "The process working directory is process-global state: the translator lists every call that changes such state "
+    "(pkg_process_state_calls: os.Chdir, Setenv, Umask, signal.Notify, log.SetOutput, rand.Seed, flag.Parse, GOMAXPROCS ...; "
+    "obligation globals_no_process_state_calls) and the mix cwd-relative observes it at run time. Still shared by construction: "
+    "RunInspections writes <name>.link files into the working directory (the harness uses inspection names unique per goroutine "
+    "and records only sub-trees of the working directory that nobody writes)",
+    "process-global state changed by a dependency (standard library / third-party) or through syscalls not in the translator's "
+    "table is not inventoried; only the run-time comparison can show it",
     "writes performed by init() functions and package-level initialisers (pkg_init_writes, none at present) happen before any call "
     "and are not counted; cmd/ and internal/ are inventoried separately (cobra flag variables) and are outside the library property",
     "*regexp.Regexp package variables are taken as immutable (documented safe for concurrent use); error sentinels are interface "
@@ -35,7 +39,8 @@ EXPLANATION = (
     "every library call write-free. regress/C16.v: with the pre-F16 shared visitedSymlinks set, explicit schedules whose results "
     "differ from both sequential orders. Runtime evidence: harness/c16 built with -race runs batches of 2..32 goroutines issuing "
     "mixed calls (RecordArtifacts on generated trees with file/dir/nested/cyclic symlinks, RunCommand, InTotoRun, Sign/Verify for "
-    "Metablock and DSSE, Dump+LoadMetadata, key loading, VerifyArtifacts, SubstituteParameters, InTotoVerify) on disjoint data and "
+    "Metablock and DSSE, Dump+LoadMetadata, key loading, VerifyArtifacts, SubstituteParameters, InTotoVerify, and InTotoVerifyWithDirectory "
+    "with slow inspections next to calls using paths relative to the fixed working directory) on disjoint data and "
     "compares every result with the same calls made sequentially; any difference, race report or crash is a violation.")
 
 GORACE = 'halt_on_error=0 exitcode=66 history_size=3'
@@ -44,7 +49,7 @@ GORACE = 'halt_on_error=0 exitcode=66 history_size=3'
 def _spec(ctx, targeted=False):
     """(goroutines, rounds, gomaxprocs, yield, mixes)"""
     if targeted:
-        return ('2,8,32', 6, '0,2', '2', 'record-symlinks,run,mixed')
+        return ('4,8', 4, '0,2', '2', 'record-symlinks,run,mixed,cwd-relative')
     if ctx.tier == 'quick':
         return ('2,8,32', 1, '0', '2', '')
     return ('2,3,8,16,32', 3, '1,2,4,16', '2', '')
@@ -157,7 +162,7 @@ def _inventory(ctx):
         return None, 'translator failed: ' + o[-300:]
     txt = open(p).read()
     inv = {}
-    for name in ('pkg_var_writes', 'pkg_var_escapes', 'pkg_init_writes'):
+    for name in ('pkg_var_writes', 'pkg_var_escapes', 'pkg_init_writes', 'pkg_process_state_calls', 'pkg_init_process_state_calls'):
         m = re.search(r'Definition %s\b[^:]*:[^=]*:=(.*?)\.\n' % name, txt, re.S)
         inv[name] = re.findall(r'\(\(bs "([^"]*)"\), \(bs "([^"]*)"\), \(bs "([^"]*)"\)\)', m.group(1)) if m else None
     inv['pkg_vars'] = len(re.findall(r'\(\(bs "[^"]*"\), \(bs "[^"]*"\)\)', re.search(r'Definition pkg_vars\b.*?\]\.', txt, re.S).group(0))) \
@@ -195,6 +200,18 @@ def correspondence(ctx):
             v['case']['input']['cold_start_process'] = True
             v['case']['input']['verif_seed'] = ctx.seed + 1000 + i
             viol.append(v)
+    # process-global state: relative paths against a fixed working directory while others verify with slow inspections
+    cspec = ('4,8', 1, '0', '0', 'cwd-relative') if ctx.tier == 'quick' else ('4,8,16', 2, '0,4', '2', 'cwd-relative')
+    rc3, o3, b3 = _run(ctx, cspec, 'cwd', seed_off=5000)
+    for b in b3:
+        b['id'] += 200000
+    v3 = _violations(rc3, o3, b3)
+    for v in v3:
+        v['case']['input']['verif_seed'] = ctx.seed + 5000
+    viol += v3
+    batches += b3
+    nrace += o3.count('WARNING: DATA RACE')
+    rcs.append(rc3)
     corr.evaluations = len(batches)
     corr.distinct_nontrivial = len(set((b['mix'], b['goroutines'], b['gomaxprocs'], b['yield'], b['seed']) for b in batches
                                        if b['goroutines'] >= 2 and b['calls'] >= 2))
@@ -204,7 +221,10 @@ def correspondence(ctx):
                  "on an identical copy of the tree; run under the race detector; quick: G in {2,8,32} x 5 mixes x "
                  "yield on/off, plus 3 cold-start processes of one 32/8-goroutine batch each (concurrent calls run before the sequential "
                  "ones, so lazily initialised state is first touched concurrently); thorough adds GOMAXPROCS in {1,2,4,16}, more G, "
-                 "rounds and 25 cold starts. "
+                 "rounds and 25 cold starts. Mix cwd-relative (G in {4,8}; thorough {4,8,16} x GOMAXPROCS {default,4} x yield): the harness "
+                 "fixes its working directory once; up to 4 goroutines run InTotoVerifyWithDirectory on their own run directories with "
+                 "layouts of 1-2 inspections taking 0.3-0.5 s while the others call RecordArtifacts / InTotoRun with paths relative to "
+                 "the working directory, spread over that time; the working directory is checked after every concurrent phase. "
                  "non-trivial = at least 2 goroutines and 2 calls; distinct = distinct (mix, G, GOMAXPROCS, yield, seed)")
     calls, kinds, errs, trees = 0, {}, {}, {}
     for b in batches:
@@ -226,24 +246,32 @@ def correspondence(ctx):
     corr.extra['trees_by_kind'] = trees
     corr.extra['race_detector'] = {'GORACE': GORACE, 'exit_codes': rcs, 'reports': nrace, 'cold_start_processes': ncold}
     corr.violations = viol
+    ctx.c16_found = bool(viol)
     corr.extra['inventory'] = inv if inv else {'error': inv_err}
     written = (inv or {}).get('pkg_var_writes') or []
     escapes = (inv or {}).get('pkg_var_escapes') or []
+    procs = (inv or {}).get('pkg_process_state_calls') or []
     for v in corr.violations:
         v['case']['input']['translator_pkg_var_writes'] = written
-    if inv is None or written or escapes:
+        v['case']['input']['translator_pkg_process_state_calls'] = procs
+    if inv is None or written or escapes or procs:
         # the inventory obligation does not hold for the tree under test (whatever coq/gen currently contains):
         # the theorem no longer applies to this code
         corr.disagreements.append({
-            'klass': 'inventory', 'case': {'id': -1, 'input': {'pkg_var_writes': written, 'pkg_var_escapes': escapes, 'error': inv_err}},
-            'impl': 'pkg_var_writes = %s; pkg_var_escapes = %s' % (json.dumps(written), json.dumps(escapes)),
-            'model': 'pkg_var_writes = []; pkg_var_escapes = [] (obligations globals_written_empty, globals_no_escape of props/C16.v)'})
+            'klass': 'inventory', 'case': {'id': -1, 'input': {'pkg_var_writes': written, 'pkg_var_escapes': escapes,
+                                                             'pkg_process_state_calls': procs, 'error': inv_err}},
+            'impl': 'pkg_var_writes = %s; pkg_var_escapes = %s; pkg_process_state_calls = %s' % (
+                json.dumps(written), json.dumps(escapes), json.dumps(procs)),
+            'model': 'pkg_var_writes = []; pkg_var_escapes = []; pkg_process_state_calls = [] (obligations globals_written_empty, '
+                     'globals_no_escape, globals_no_process_state_calls of props/C16.v)'})
     return corr
 
 
 def search(ctx, why):
     """the inventory obligation broke (or the run could not complete) and the main run showed nothing:
-    soak the calls that touch the symlink walk and the command runner"""
+    soak the calls that touch the symlink walk, the command runner and the working directory"""
+    if getattr(ctx, 'c16_found', False):
+        return []   # the main run already produced concrete failing inputs
     rc, o, batches = _run(ctx, _spec(ctx, targeted=True), 'search')
     ctx.notes.append('targeted search: %d batches, exit %d, %d race reports (%s)' % (len(batches), rc, o.count('WARNING: DATA RACE'), why[:200]))
     return _violations(rc, o, batches)
